@@ -122,7 +122,14 @@ impl CoreApi for CachedEnforcer {
         a: A,
     ) -> Result<CachedEnforcer> {
         let mut cached_enforcer = Self::new_raw(m, a).await?;
-        cached_enforcer.load_policy().await?;
+
+        // like Enforcer::new: do not initialize the full policy when using
+        // a filtered adapter
+        if !cached_enforcer.is_filtered() {
+            cached_enforcer.load_policy().await?;
+        } else {
+            cached_enforcer.build_role_links()?;
+        }
         Ok(cached_enforcer)
     }
 
